@@ -189,3 +189,40 @@ def oracle_wingbox_closed_form(R, tier, seed):
                               errors=bad, nodes=nodes.tolist(), disp=disp.tolist(), section=core.jsonable(w))
                     else: O["ok"] += 1
                 R.mark("c15wbcf", kind, ny, tssf)
+
+
+def _tube_closed_form(nodes, disp, E, G, radius):
+    ne = nodes.shape[0] - 1; out = np.zeros((ne, 2))
+    for e in range(ne):
+        P0, P1 = nodes[e], nodes[e + 1]; L = np.linalg.norm(P1 - P0); x = (P1 - P0) / L
+        y = np.cross(x, [1.0, 0, 0]); y /= np.linalg.norm(y); z = np.cross(x, y); z /= np.linalg.norm(z)
+        du = (disp[e + 1, :3] - disp[e, :3]) @ x; dr = disp[e + 1, 3:] - disp[e, 3:]
+        bend = E * radius[e] / L * np.sqrt((dr @ y) ** 2 + (dr @ z) ** 2); tau = G * radius[e] * (dr @ x) / L
+        out[e, 0] = np.sqrt((E * du / L + bend) ** 2 + 3 * tau ** 2); out[e, 1] = np.sqrt((-E * du / L + bend) ** 2 + 3 * tau ** 2)
+    return out
+
+
+def oracle_two_surface_aerostruct(R, tier, seed):
+    """converged AerostructPoint with two surfaces of different material and failure aggregation: each surface's von Mises
+    stresses are those of ITS OWN E, G and section, and its failure measure is built on ITS OWN allowable and option"""
+    from .. import structs
+    O = R.oracle("AerostructPoint(two surfaces).per-surface-stress-and-failure")
+    p, surfs = structs.two_surface_aerostruct(seed)
+    for s in surfs:
+        n = s["name"]
+        nodes = structs.g(p, n + ".nodes"); disp = structs.g(p, "AS_point_0.coupled.%s.disp" % n); radius = structs.g(p, n + ".radius")
+        vm = structs.g(p, "AS_point_0.%s_perf.vonmises" % n); fail = structs.g(p, "AS_point_0.%s_perf.failure" % n)
+        ref = _tube_closed_form(nodes, disp, s["E"], s["G"], radius)
+        bad = {}
+        sc = max(np.abs(ref).max(), 1.0)
+        if np.abs(vm - ref).max() > 1e-9 * sc: bad["vonmises-vs-own-closed-form"] = float(np.abs(vm - ref).max() / sc)
+        f_el = ref / s["yield"] - 1
+        if s["exact_failure_constraint"]:
+            if fail.shape != f_el.shape or np.abs(fail - f_el).max() > 1e-9 * max(np.abs(f_el).max(), 1.0): bad["exact-failure-vs-stress-over-own-allowable"] = [list(fail.shape), float(np.max(fail))]
+        else:
+            fm = float(f_el.max()); N = f_el.size; rho = 100.0
+            if fail.size != 1 or not (fm - 1e-9 <= float(np.ravel(fail)[0]) <= fm + np.log(N) / rho + 1e-9): bad["KS-failure-outside-its-bounds"] = [float(np.ravel(fail)[0]), fm, fm + np.log(N) / rho]
+        O["cases"] += 1
+        if bad: _fail(O, "C15:AerostructPoint(two surfaces):%s-%s" % (n, sorted(bad)[0]), {"surface": n, "E": s["E"], "G": s["G"], "yield": s["yield"], "exact": s["exact_failure_constraint"], "seed": seed}, errors=bad)
+        else: O["ok"] += 1
+    R.mark("c15two", seed)
